@@ -230,7 +230,7 @@ impl World {
         }
         let bytes = assemble(&lines, pad);
         match mode {
-            OutMode::Stdout | OutMode::File => {
+            OutMode::Stdout | OutMode::File | OutMode::Append => {
                 if bytes.is_empty() {
                     Ok(Built::Absent)
                 } else {
